@@ -153,6 +153,27 @@ CLAIMED.update({
         ref='DESIGN.md 3/C18'),
 })
 
+CLAIMED.update({
+    'C13': dict(
+        text='Effect contracts on every function that touches the server-side reference count, each proved on the real code: Server.create registers the object itself (not a copy) and '
+             'leaves count = previous (0 if new) + 1, all other idents untouched; _make_proxy builds exactly one reference-taking proxy for its token; _incref causes exactly one '
+             'increment and registers exactly one finalizer (own token, exit priority set); _decref exactly one decrement; __reduce__ exactly one increment before the pickle exists; '
+             'RebuildProxy [incref, finalizer, decref] in that order, also while a child is starting; managed() hosts the very object; MemoryBlock finalizer closes and unlinks. A '
+             'lemma over these effects gives refcount == live proxies + pickles in transit, 0 exactly when unreferenced. stdlib halves (BaseProxy.__init__, Server.decref, Finalize) '
+             'are assumed contracts; a seeded random-history battery against a count model is the bounded stand-in for whole histories.',
+        technique='contract-based deductive verification: pyvc effect contracts (event logs, frame conditions on both server maps) + counting lemma, z3; bounded runtime battery for histories',
+        ref='DESIGN.md 3/C13'),
+    'C14': dict(
+        text='Contracts along the whole call path, proved on the real code: Server._callmethod returns ("#RETURN", result) of exactly one call of the named method on the hosted object '
+             'with the request\'s args/kwds, ("#ERROR", RemoteException(e)) when it raises, ("#PROXY", create(typeid, result)) for managed-returning methods; serve_client answers '
+             'every request with exactly that message, in order, and keeps serving after error responses; BaseProxy._callmethod sends (own id, name, args, kwds), returns '
+             '"#RETURN"/"#PROXY" results and raises convert_to_error otherwise (in-server short-cut: same message format); every hand-written proxy method and the generated method '
+             'template (extracted from the exec string every run) forward their own arguments; add_proxy_methods call sites must not shadow the attribute protocol (the pinned tree '
+             'did: fixed bf06a20); Server.create/managed() host the very object. Lemma: proxy call == direct call up to the pickle round trip (exceptions: C15).',
+        technique='contract-based deductive verification: pyvc VCs with uninterpreted hosted methods, index-based request histories, call-site precondition check, composition lemma, z3',
+        ref='DESIGN.md 3/C14'),
+})
+
 PENDING = 'check under construction (see DESIGN.md section 3)'
 NA = {}
 
